@@ -301,6 +301,22 @@ func (p *Prog) pathIn(chain []ssa.CallInstruction, v ssa.Value) string {
 	return s
 }
 
+// callsThroughNew: f calls target directly or through helpers that did not exist on the reference tree (wrappers).
+func (p *Prog) callsThroughNew(f *ssa.Function, target *ssa.Function, depth int) bool {
+	if len(callsIn(f, false, target)) > 0 {
+		return true
+	}
+	if depth >= 2 {
+		return false
+	}
+	for _, cs := range allCalls(f) {
+		if sc := cs.Common().StaticCallee(); sc != nil && !cs.Common().IsInvoke() && p.isNewNamed(sc) && p.callsThroughNew(origin(sc), target, depth+1) {
+			return true
+		}
+	}
+	return false
+}
+
 // bodyFuncs: f (with its function literals if nested) plus the transparent helpers called from them, transitively.
 func bodyFuncs(f *ssa.Function, nested bool) []*ssa.Function {
 	var out []*ssa.Function
